@@ -413,6 +413,10 @@ func run(ctx *Ctx) *Result {
 		r := ctx.Rng.Fork()
 		be := backends[i%len(backends)]
 		a, b := genPair(r, be == "ios", ctx.N(8, 12))
+		if be == "ios" && r.Chance(12) {
+			a, b = genRemarkBlockPair(r)
+			res.Count("ios:template:insert-at-remark-inside-block")
+		}
 		runCase(aclCase{Backend: be, A: a, B: b})
 	}
 	return res
